@@ -6,6 +6,7 @@ import (
 	sdk "github.com/cosmos/cosmos-sdk/types"
 
 	basetypes "github.com/regen-network/regen-ledger/x/ecocredit/v3/base/types/v1"
+	markettypes "github.com/regen-network/regen-ledger/x/ecocredit/v3/marketplace/types/v1"
 
 	"verif/harness/chain"
 	"verif/harness/explore"
@@ -184,6 +185,8 @@ func Market() Spec {
 		fix(Next(10 * time.Second)),
 		fix(Next(365 * 24 * time.Hour)),
 		fix(GovFeeParams(G, "0.01", "0.333333")),
+		fix(Msg("gov:remove-allowed-denom(ibc)", &markettypes.MsgRemoveAllowedDenom{Authority: G.String(), Denom: IBC})),
+		fix(Msg("gov:add-allowed-denom(ibc)", &markettypes.MsgAddAllowedDenom{Authority: G.String(), BankDenom: IBC, DisplayDenom: "atom", Exponent: 6})),
 		fix(Send(B, C, B1, "1", "0")),
 		fix(Retire(C, B1, "1")),
 	}
@@ -247,4 +250,91 @@ func Large() Spec {
 	}
 	return Spec{Name: "large", Seeds: []explore.Seed{PreparedSeed("prepared")},
 		Events: good, DepthQuick: 3, DepthThor: 5, MinStates: 200}
+}
+
+// Expiry: orders with every expiry kind against block-time sequences (C12).
+func Expiry() Spec {
+	e10 := chain.T0.Add(10 * time.Second)
+	e10n := chain.T0.Add(10*time.Second + time.Nanosecond)
+	e20 := chain.T0.Add(20 * time.Second)
+	ur := func(n int64) sdk.Coin { return coin("uregen", n) }
+	bad := []E{
+		fix(Sell(B, B1, "1", ur(3), true, &chain.T0)), // expiration not in the future
+	}
+	good := []E{
+		fix(Sell(B, B1, "0.5", ur(3), true, &e10)),
+		fix(Sell(B, B1, "0.25", ur(3), true, &e10)), // second order, same seller/batch/expiry
+		fix(Sell(B, B2, "1", ur(2), true, &e10n)),
+		fix(Sell(C, B1, "1.5", ur(5), false, &e20)),
+		fix(Sell(C, B2, "1", ur(5), true, nil)),
+		UpdateOrder(B, B, 1, "0.5", nil, false, &e20),  // B's 2nd order (expiring T0+10s in the seed): new expiry + qty down
+		UpdateOrder(B, B, 0, "2", nil, true, &e10),     // B's non-expiring order gets an expiry and more quantity
+		UpdateOrder(C, C, 0, "0.5", nil, true, &e10n),
+		Buy(D, "B1-half", BuySpec{Seller: B, K: 1, Qty: "0.5", MaxFee: I64(100)}),
+		Buy(D, "C0-half", BuySpec{Seller: C, K: 0, Qty: "0.5", DAR: true, MaxFee: I64(100)}),
+		Buy(D, "B0-all", BuySpec{Seller: B, K: 0, DAR: true, MaxFee: I64(100)}),
+		CancelOrder(B, B, 1),
+		CancelOrder(C, C, 0),
+		fix(Next(5 * time.Second)),
+		fix(Next(10 * time.Second)),
+		fix(Next(10*time.Second + time.Nanosecond)),
+		fix(Next(365 * 24 * time.Hour)),
+	}
+	return Spec{Name: "expiry", Seeds: []explore.Seed{PreparedSeed("prepared"), FreshCoreSeed()},
+		Events: append(good, bad...), DepthQuick: 4, DepthThor: 6, ExpectFail: expectFail(names(bad...)...), MinStates: 500}
+}
+
+// GovPool: the marketplace fee pool under authority and non-authority
+// messages, uregen (burn) and non-uregen (pool) fee paths (C03).
+func GovPool() Spec {
+	seed := PreparedSeed("prepared+fees",
+		GovFeeParams(G, "0.1", "0.1"),
+		Sell(B, B1, "3", coin(IBC, 1000), true, nil),
+		Msg("seed:buy", &markettypes.MsgBuyDirect{Buyer: D.String(), Orders: []*markettypes.MsgBuyDirect_Order{
+			{SellOrderId: 4, Quantity: "1", BidPrice: pcoin(IBC, 1000), DisableAutoRetire: true, MaxFeeAmount: pcoin(IBC, 100)}}}),
+	)
+	seed.Name = "prepared+fees"
+	bad := []E{
+		fix(GovSendFromPool(D, D, coin(IBC, 50))),
+		fix(GovSendFromPool(B, B, coin(IBC, 1))),
+		fix(GovSendFromPool(G, C, coin(IBC, 1000000))),
+		fix(BankSend("BankSend(D->feepool,5ibc)", D, FeePool, coin(IBC, 5))), // blocked address
+		fix(BurnRegen(D, "1000000000000")),
+	}
+	good := []E{
+		fix(GovSendFromPool(G, D, coin(IBC, 50))),
+		fix(GovSendFromPool(G, C, coin(IBC, 1))),
+		fix(GovSendFromPool(G, G, coin(IBC, 149))),
+		fix(BurnRegen(B, "1")),
+		fix(BurnRegen(D, "1000003")),
+		Buy(D, "ibc-order", BuySpec{Seller: B, K: 2, Qty: "0.5", DAR: true, MaxFee: I64(1000)}),
+		Buy(D, "uregen-order", BuySpec{Seller: B, K: 0, Qty: "0.5", DAR: true, MaxFee: I64(1000)}),
+		Buy(C, "ibc-order-by-C", BuySpec{Seller: B, K: 2, Qty: "0.25", DAR: true, MaxFee: I64(1000)}),
+		fix(GovFeeParams(G, "0.333333", "0.01")),
+		fix(GovFeeParams(G, "", "")),
+		fix(Sell(C, B1, "1", coin(IBC, 7), true, nil)),
+		Buy(D, "C-order", BuySpec{Seller: C, K: 1, Qty: "1", DAR: true, MaxFee: I64(1000)}),
+		fix(BankSend("BankSend(D->B,5ibc)", D, B, coin(IBC, 5))),
+	}
+	return Spec{Name: "govpool", Seeds: []explore.Seed{seed},
+		Events: append(good, bad...), DepthQuick: 3, DepthThor: 5, ExpectFail: expectFail(names(bad...)...), MinStates: 300}
+}
+
+// BasketLarge: basket totals beyond 34 significant digits (C05).
+func BasketLarge() Spec {
+	good := []E{
+		MintFresh(A, B1, B, Big, "0"),
+		MintFresh(A, B1, C, Big, "0"),
+		fix(Put(B, NCT, BC(B1, Big))),
+		fix(Put(C, NCT, BC(B1, Big))),
+		fix(Put(B, NCT, BC(B1, "1.000001"))),
+		fix(Put(C, RCT, BC(B1, Big))),
+		TakeAll(B, NCT, false),
+		TakeAll(C, NCT, true),
+		fix(Take(B, NCT, "1", false)),
+		fix(Take(C, NCT, "1000000", false)),
+		fix(BankSend("BankSend(B->C,1NCT)", B, C, coin(NCT, 1))),
+	}
+	return Spec{Name: "basket-large", Seeds: []explore.Seed{PreparedSeed("prepared")},
+		Events: good, DepthQuick: 4, DepthThor: 6, MinStates: 100}
 }
